@@ -1,11 +1,16 @@
 from __future__ import annotations
 
+import re
 from decimal import Decimal
 from typing import Protocol, Any
 
 from . import isoduration
 
 STRICT_VALUE_CHECK = True
+
+_XML_WHITESPACE = ' \t\n\r'
+_XSD_INTEGER = re.compile(r'[+-]?[0-9]+')
+_XSD_DECIMAL = re.compile(r'[+-]?(?:[0-9]+(?:\.[0-9]*)?|\.[0-9]+)')
 
 
 class DataConverterProtocol(Protocol):
@@ -150,6 +155,9 @@ class DecimalConverter(NullConverter):
     def to_py(cls, xml_value: str) -> Decimal | int | float:
         if xml_value is None:
             return None
+        xml_value = xml_value.strip(_XML_WHITESPACE)
+        if _XSD_DECIMAL.fullmatch(xml_value) is None:
+            raise ValueError(f'{xml_value!r} is not a valid xsd:decimal')
         if cls.USE_DECIMAL_TYPE:
             return Decimal(xml_value)
         if '.' in xml_value:
@@ -209,7 +217,10 @@ class IntegerConverter(NullConverter):
     def to_py(xml_value: str) -> int:
         if xml_value is None:
             return None
-        return int(xml_value)
+        value = xml_value.strip(_XML_WHITESPACE)
+        if _XSD_INTEGER.fullmatch(value) is None:
+            raise ValueError(f'{xml_value!r} is not a valid xsd:integer')
+        return int(value)
 
     @staticmethod
     def to_xml(py_value: int) -> str:
